@@ -113,6 +113,13 @@ def custom(ctx):
     for req, obs, orc in bad[:3]:
         ctx.broken.append("expand_refines_spec_decided claims rssl = C on a tame program, but the real preprocessor "
                           f"differs from the reference on it: {req!r} -> {obs!r} ({orc})")
+    if bad:
+        # a concrete failing input: the real code violates the property on an input where the proof says it cannot
+        req, obs, orc = min(bad, key=lambda b: len(b[0]))
+        path = ctx.write_replay("input", {"request": req, "observed": obs, "oracle": orc,
+                                          "found_by": "tame program (class of expand_refines_spec_decided) on which the "
+                                                      "real preprocessor differs from the reference preprocessor"})
+        ctx.violations.append((path, ""))
 
 
 SPEC = {
